@@ -160,6 +160,10 @@ SEEDS = {
     "C08h-clamp-limits-read-from-bunch0": ("C08", "--InterpolateClamped true with cubic interpolation and two or more bunches with different data: a new CPU implementation of the clamp reads the two limiting cells of the x-kick (drift) without the bunch offset, every bunch is clamped against bunch 0's cells", ["C01", "C03"]),
     "C04h-axis-accessor-index-8bit": ("C04", "a grid of more than 256 cells with the Fokker-Planck term on: PhaseSpace::q()/p() take their index as uint_fast8_t (the type of the axis-number arguments next to them), rows j >= 256 get the energy of row j-256 in the damping term", ["C01", "C09"]),
     "C05h-linear-rf-angle-times-cos-phis": ("C05", "a ring with a large synchronous phase (radiation loss a sizeable fraction of the RF voltage, e.g. -E 2.2e9 -V 0.8e6) and the linear RF model: main() builds the RF kick with angle*cos(phi_s), drift and time step keep angle", ["C03"]),
+    "C13h-signed-options-saved-as-unsigned": ("C13", "a negative signed 32-bit option in a run that writes results (RenormalizeCharge -1, 'no renormalisation'): the folded int/uint branch of save() streams it as unsigned, the rerun from the .cfg is refused", ["C20"]),
+    "C16h-collimator-range-check-full-gap": ("C16", "a collimator opening between the pipe radius and the full gap (|gap|/2 <= r < |gap|): the factory's range check lost its /2, a NEGATIVE constant resistance Z0/pi ln(outer/inner) is added", ["C10"]),
+    "C19h-modulation-queue-refilled-from-zero": ("C19", "phase modulation and a run longer than 16384 steps whose modulation period does not divide 16384 steps: the queue is filled in blocks and every refill restarts the sine at phase 0", ["C17"]),
+    "C20h-unsigned-values-above-int-max-refused": ("C20", "a legal value of 2^31 or more for an unsigned 32-bit option (--outstep 4294967295): the validator reads it through a signed 32-bit conversion and refuses it as invalid", ["C13"]),
     "C10-": ("C10", "", []),
     "C17-": ("C17", "", []),
 }
